@@ -3,8 +3,8 @@ from __future__ import annotations
 
 import z3
 
-BV8 = z3.BitVecSort(8)
-BYTES = z3.SeqSort(BV8)
+BV8 = z3.IntSort()          # bytes are sequences of mathematical integers constrained to 0..255 where read
+BYTES = z3.SeqSort(z3.IntSort())
 
 
 class Unsupported(Exception):
